@@ -176,6 +176,11 @@ def run(M, rep, tier, only=None):
             if k.name in [o[0] for o in owners] or k is cbase or (lbase is not None and M.is_subclass(k, lbase)):
                 continue
             owners.append((k.name, None, None))
+    def _container_member(q):
+        # a composed call into a member of the container family (another __delitem__, a private helper the checks were
+        # moved into): its own decisions are not visible here, they are analysed under the member's own class
+        fn = M.funcs.get(q)
+        return fn is not None and fn.cls is not None and cbase is not None and M.is_subclass(fn.cls, cbase)
     for cn, tree, pub in owners:
         f = ctx.member(cn, "__delitem__")
         key = cn + ".__delitem__"
@@ -207,7 +212,7 @@ def run(M, rep, tier, only=None):
             typed = "item" in params_of(eid.t) and (
                 any(a[0] == "isinst" and a[1] == ("param", "item") and v is True for a, v in p.decisions) or
                 # delegated to another container's __delitem__ (composed: its own decisions are checked under its own class)
-                any(a[0] == "outcome" and isinstance(a[1], str) and a[1].endswith(".__delitem__") for a, v in p.decisions))
+                any(a[0] == "outcome" and isinstance(a[1], str) and _container_member(a[1]) for a, v in p.decisions))
             if not via_own and not typed:
                 bad = (p, "the id list %s is not the id of a member looked up in this container (nor of an entity object of its kind): "
                        "a key that names something else in the file deletes that" % txt[:80])
